@@ -269,6 +269,104 @@ theorem C12_step_total (s : Screen) (h : Valid s) :
   · intro h1 h2
     exact load_save h.wf (List.length_pos_iff.1 h1) (Nat.pos_iff_ne_zero.1 h2)
 
+/-! ### `Screen.combine` / `Screen.concat`: the union goes through the constructor's per-plate check -/
+
+/-- the raw call `Screen.combine` makes -/
+def combineRaw (a b : Screen) : Raw :=
+  { ctrl := a.ctrl, arity := a.arity, tnames := a.tnames ++ b.tnames, tdoses := a.tdoses ++ b.tdoses,
+    snames := a.snames ++ b.snames, pnames := a.pnames ++ b.pnames, obs := some (a.obs ++ b.obs),
+    mask := some (a.mask ++ b.mask), tmap := none, smap := none }
+
+theorem combine_ok_iff (a b t : Screen) : combine a b = .ok t ↔ (a.ctrl = b.ctrl ∧ a.arity = b.arity ∧ mk? (combineRaw a b) = .ok t) := by
+  unfold combine combineRaw
+  by_cases h1 : a.ctrl = b.ctrl
+  · by_cases h2 : a.arity = b.arity
+    · simp [h1, h2]
+    · simp [h1, h2]
+  · simp [h1]
+
+/-- Whatever `Screen.combine` returns is a constructed screen, plate-uniform by name and by id, whose rows are the
+    two inputs' rows in order with their masks and observation bit patterns unchanged: a combination never yields a
+    partly observed plate and never alters a mask or a stored value. -/
+theorem C12_combine_uniform (a b t : Screen) (h : combine a b = .ok t) :
+    Valid t ∧ PlateUniform t ∧ PlateUniformById t
+    ∧ t.pnames = a.pnames ++ b.pnames ∧ t.mask = a.mask ++ b.mask ∧ t.obs = a.obs ++ b.obs := by
+  obtain ⟨_, _, hmk⟩ := (combine_ok_iff a b t).1 h
+  have hv : Valid t := ⟨_, hmk⟩
+  have f := mk?_inv hmk
+  exact ⟨hv, (plateUniform_of_valid t hv).1, (plateUniform_of_valid t hv).2, f.core.pnames_eq,
+    by rw [f.mask_eq]; rfl, by rw [f.obs_eq]; rfl⟩
+
+/-- An observed and a masked screen that share a plate name cannot be combined: if some row of `a` and some row
+    of `b` carry the same plate name with different observation status, `combine` returns nothing -- also when the
+    two rows are far apart and every contiguous run of the plate is uniform (the check is per plate, not per
+    neighbouring rows). -/
+theorem C12_combine_rejects_shared_mixed (a b : Screen) (ha : Valid a) (hb : Valid b) (i j : Nat)
+    (hi : i < a.size) (hj : j < b.size) (hp : a.pnames[i]! = b.pnames[j]!) (hne : a.mask[i]! ≠ b.mask[j]!) :
+    ∀ t, combine a b ≠ .ok t := by
+  intro t h
+  obtain ⟨_, _, hmk⟩ := (combine_ok_iff a b t).1 h
+  have wa := ha.wf
+  have wb := hb.wf
+  have la : a.pnames.length = a.size := by rw [size_eq wa, wa.len_pn]
+  have lb : b.pnames.length = b.size := by rw [size_eq wb, wb.len_pn]
+  have ma : a.mask.length = a.size := by rw [size_eq wa, wa.len_mask]
+  have mb : b.mask.length = b.size := by rw [size_eq wb, wb.len_mask]
+  refine C12_ctor_rejects_mixed (combineRaw a b) (a.obs ++ b.obs) (a.mask ++ b.mask) rfl rfl i (a.size + j) ?_ ?_ ?_ ?_ t hmk
+  · simp only [combineRaw, List.length_append]; omega
+  · simp only [combineRaw, List.length_append]; omega
+  · simp only [combineRaw]
+    rw [getElem!_pos (a.pnames ++ b.pnames) i (by rw [List.length_append]; omega),
+      getElem!_pos (a.pnames ++ b.pnames) (a.size + j) (by rw [List.length_append]; omega),
+      List.getElem_append_left (by omega), List.getElem_append_right (by omega)]
+    rw [getElem!_pos a.pnames i (by omega), getElem!_pos b.pnames j (by omega)] at hp
+    rw [hp]
+    congr 1
+    omega
+  · rw [getElem!_pos (a.mask ++ b.mask) i (by rw [List.length_append]; omega),
+      getElem!_pos (a.mask ++ b.mask) (a.size + j) (by rw [List.length_append]; omega),
+      List.getElem_append_left (by omega), List.getElem_append_right (by omega)]
+    rw [getElem!_pos a.mask i (by omega), getElem!_pos b.mask j (by omega)] at hne
+    intro e
+    apply hne
+    rw [e]
+    congr 1
+    omega
+
+/-- `Screen.concat`: every result is plate-uniform (given constructed inputs; a one-element list returns its
+    element unchanged) -/
+theorem C12_concat_uniform (ss : List Screen) (hv : ∀ s ∈ ss, Valid s) (t : Screen) (h : concat ss = .ok t) :
+    Valid t ∧ PlateUniform t ∧ PlateUniformById t := by
+  have key : ∀ (rest : List Screen) (s : Screen), Valid s → rest.foldlM combine s = .ok t → Valid t := by
+    intro rest
+    induction rest with
+    | nil => intro s hs h; simp only [List.foldlM_nil, pure, Except.pure] at h; injection h with h; subst h; exact hs
+    | cons x xs ih =>
+      intro s _ h
+      rw [List.foldlM_cons] at h
+      cases hc : combine s x with
+      | error e => rw [hc] at h; simp only [bind, Except.bind] at h; cases h
+      | ok u =>
+        rw [hc] at h
+        simp only [bind, Except.bind] at h
+        exact ih u (C12_combine_uniform s x u hc).1 h
+  cases ss with
+  | nil => simp only [concat] at h; cases h
+  | cons s rest =>
+    have := key rest s (hv s List.mem_cons_self) h
+    exact ⟨this, plateUniform_of_valid t this⟩
+
+/-- the interleaved witness: plate names `[p, q, p, q]` with mask `[T, F, F, F]` -- no two NEIGHBOURING rows of one
+    plate differ, the plate `p` is mixed all the same -- is rejected with the constructor's `ValueError`; so is the
+    combination of the observed screen `[p, q]` with the masked screen `[p, q]`. -/
+def interleavedRaw : Raw :=
+  { ctrl := [], arity := 1, tnames := [[[97]], [[97]], [[97]], [[97]]], tdoses := [[1], [1], [1], [1]],
+    snames := [[115], [115], [115], [115]], pnames := [[112], [113], [112], [113]], obs := some [1, 2, 3, 4],
+    mask := some [true, false, false, false], tmap := none, smap := none }
+
+theorem C12_interleaved_mixed_rejected : mk? interleavedRaw = .error .valueError := by
+  rw [mk?_eqK]; decide
+
 /-! ### non-vacuity -/
 
 example : Valid exScreen := exScreen_valid
@@ -284,5 +382,17 @@ example : nUnobservedPlates exScreen = 1 := by
 example : ∃ t, setObserved exScreen [true, false, false] [7] = .ok t ∧ t.mask = [true, true, false] := ⟨_, rfl, rfl⟩
 example : ∃ t, setObserved witnessPrepared [false, true, false, false, false, false] [7] = .ok t
     ∧ t.obs = [1, 7, 3, 4, 5, 6] := ⟨_, rfl, rfl⟩
+
+/-- the combine hypotheses are satisfiable: `exScreen` (plate `p` observed) and its fully masked copy share plate
+    `p` with different status, so they cannot be combined; `exScreen` with itself can -/
+example : ∀ t, combine exScreen { exScreen with mask := List.replicate exScreen.size false } ≠ .ok t :=
+  C12_combine_rejects_shared_mixed exScreen _ exScreen_valid
+    (step_maps (op := .mask) (s := exScreen) (C12_mask_exact exScreen exScreen_valid)).1 0 0 (by decide) (by decide)
+    (by decide) (by decide)
+
+example : ∃ t, combine exScreen exScreen = .ok t ∧ t.mask = [true, true, false, true, true, false] := by
+  have h : combine exScreen exScreen = mk? (combineRaw exScreen exScreen) := by simp [combine, combineRaw]
+  rw [h, mk?_eqK]
+  exact ⟨_, rfl, by decide⟩
 
 end Batchie.Props.C12
